@@ -552,11 +552,21 @@ pub fn check_sequence(seq: &[Tok], ending: Ending, h3_side: usize, seed: u64, re
             rep,
             "close-code",
             format!("sequence {:?} ending {:?}: API reported connection error {:?} but the transport was closed with {:?}", seq, ending, want.map(|c| format!("{:#x}", c)), got.map(|c| format!("{:#x}", c))),
-            case,
+            case.clone(),
         ),
     }
     if server && exp.steps == [Step::StreamErr(rf::H3_REQUEST_INCOMPLETE)] {
         rep.count(&format!("incomplete_request_stream_reset[{:?}]", o.stream_reset_by_h3.map(|c| format!("{:#x}", c))));
+        // "refused by the server as incomplete": the refusal is what the client sees - the response
+        // side aborted with H3_REQUEST_INCOMPLETE (RFC 9114 4.1), not a clean, empty response
+        if o.steps == exp.steps && o.stream_reset_by_h3 != Some(rf::H3_REQUEST_INCOMPLETE) {
+            viol(
+                rep,
+                "incomplete-request-not-refused-on-the-wire",
+                format!("sequence {:?} ending {:?}: the application was told H3_REQUEST_INCOMPLETE but the response side was {} instead of reset with 0x10d", seq, ending, match o.stream_reset_by_h3 { Some(c) => format!("reset with {:#x}", c), None => "not reset (the client sees a clean end without a response)".to_string() }),
+                case,
+            );
+        }
     }
     if rep.want_sample() && seq.len() == 3 {
         rep.sample(json!({"case": {"sequence": seq.iter().map(|t| format!("{:?}", t)).collect::<Vec<_>>(), "ending": format!("{:?}", ending), "side": if server {"server"} else {"client"}},
